@@ -7,8 +7,6 @@
    every history of rows that parse, any length / affiliates / order /
    opening position: a panic of the ledger is
      - an operator overflow, or
-     - the all-affiliate assert_eq! of set_latest_post_status
-       (portfolio_status.rs:100: rounding residue), or
      - a strictly positive / strictly negative constrained quantity
        (PosDecimal / NegDecimal product, quotient or ratio) that rounded to
        ZERO ([strict_site]: underflow).
@@ -17,11 +15,17 @@
    the no-buyers assertion, and (since the fix "treat a superficial loss that
    rounds to zero effective cents as no superficial loss") the
    LessEqualZeroDecimal conversion of the effective-cent value - is
-   unreachable under rounding too. *)
+   unreachable under rounding too.  So are, since the fix "compute the
+   all-affiliate share balance with one expression everywhere", the
+   all-affiliate assert_eq! of set_latest_post_status (a rounding residue
+   before: a third class) and the Buy arm's conversion of the all-affiliate
+   balance (C05Assert: the assertion compares two evaluations of one
+   expression).  The opening position must be a value of the arithmetic
+   ([init_fits]). *)
 From Coq Require Import List NArith ZArith QArith Qcanon Bool Lia.
 From ACB Require Import Base.Outcome Base.QcExtra Base.Fit Base.Arith Model.Tx Model.Ledger Model.Sfl
      Model.DeltaList Proofs.Tactics Proofs.FitProps Proofs.C04Inv Proofs.C03Conserve Proofs.C05Sites
-     Proofs.C05NoPanic Proofs.EffCent.
+     Proofs.C05NoPanic Proofs.EffCent Proofs.AllAfter Proofs.C05Assert.
 Import ListNotations.
 Local Open Scope Qc_scope.
 
@@ -33,7 +37,8 @@ Record sign_arith (A : arith) : Prop := {
   sa_div_p : forall a b p, a_div A a b = Panic p -> b <> 0 -> p = PanicOverflow;
   sa_add_nn : forall a b r, 0 <= a -> 0 <= b -> a_add A a b = Ok r -> 0 <= r;
   sa_mul_nn : forall a b r, 0 <= a -> 0 <= b -> a_mul A a b = Ok r -> 0 <= r;
-  sa_div_nn : forall a b r, 0 <= a -> 0 < b -> a_div A a b = Ok r -> 0 <= r
+  sa_div_nn : forall a b r, 0 <= a -> 0 < b -> a_div A a b = Ok r -> 0 <= r;
+  sa_sub_nn : forall a b r, b <= a -> a_sub A a b = Ok r -> 0 <= r
 }.
 
 Lemma exact_sign : sign_arith exact.
@@ -47,6 +52,7 @@ Proof.
   - intros r Ha Hb H. inversion H; subst. apply Qcmul_nonneg; assumption.
   - intros r Ha Hb H. destruct (Qceqb_spec b 0) as [E|_]; [discriminate H|].
     inversion H; subst. apply Qcdiv_nonneg; assumption.
+  - intros r Hab H. inversion H; subst. clear H. qc_lra.
 Qed.
 
 Lemma fit_res_panic q p : fit_res q = Panic p -> p = PanicOverflow.
@@ -68,6 +74,7 @@ Proof.
   - intros r Ha Hb H. apply (fit_res_nn _ _ (Qcmul_nonneg _ _ Ha Hb) H).
   - intros r Ha Hb H. destruct (Qceqb_spec b 0) as [E|_]; [discriminate H|].
     apply (fit_res_nn _ _ (Qcdiv_nonneg _ _ Ha Hb) H).
+  - intros r Hab H. assert (Hs : 0 <= a - b) by (clear H; qc_lra). apply (fit_res_nn _ _ Hs H).
 Qed.
 
 (* ---- the panic classes ---- *)
@@ -77,21 +84,33 @@ Definition strict_sites : list N :=
 Definition strict_site (s : N) : Prop := In s strict_sites.
 
 Definition pclass (p : panic) : Prop :=
-  p = PanicOverflow \/ p = PanicAssert Site.set_latest_all \/
+  p = PanicOverflow \/
   exists s, strict_site s /\ p = PanicConstraint s.
 
 (* the effective-cent site (math.rs:93 before the fix, the LessEqualZeroDecimal
    conversion after it) is in no class *)
 Lemma pclass_not_eff_cent p : pclass p -> p <> PanicConstraint Site.eff_cent.
 Proof.
-  intros [->|[->|(s & Hs & ->)]] E; try discriminate E.
+  intros [->|(s & Hs & ->)] E; try discriminate E.
   inversion E as [Es]. subst s. unfold strict_site, strict_sites in Hs. cbn in Hs.
   repeat (destruct Hs as [Hs|Hs]; [discriminate Hs|]). exact Hs.
 Qed.
 
 Lemma pc_over : pclass PanicOverflow. Proof. left; reflexivity. Qed.
 Lemma pc_strict s : strict_site s -> pclass (PanicConstraint s).
-Proof. intros H. right; right. exists s; auto. Qed.
+Proof. intros H. right. exists s; auto. Qed.
+
+(* the all-affiliate assertion of set_latest_post_status (rounding residue
+   before the repair "one expression everywhere") is in no class either, nor is
+   the Buy arm's conversion of the all-affiliate balance *)
+Lemma pclass_not_set_latest_all p : pclass p -> p <> PanicAssert Site.set_latest_all.
+Proof. intros [->|(s & Hs & ->)] E; discriminate E. Qed.
+Lemma pclass_not_buy_all p : pclass p -> p <> PanicConstraint Site.buy_all.
+Proof.
+  intros [->|(s & Hs & ->)] E; try discriminate E.
+  inversion E as [Es]. subst s. unfold strict_site, strict_sites in Hs. cbn in Hs.
+  repeat (destruct Hs as [Hs|Hs]; [discriminate Hs|]). exact Hs.
+Qed.
 
 (* weakest-precondition style: [wp m Q] - m ends with a value satisfying Q,
    a rejection, or a panic of a listed class *)
@@ -139,6 +158,13 @@ Section Sign.
     intros Ha Hb. destruct (a_div A a b) eqn:E; cbn [wp]; auto.
     - exact (sa_div_nn A HA a b _ Ha Hb E).
     - rewrite (sa_div_p A HA _ _ _ E (Qclt_not_eq' _ Hb)). apply pc_over.
+  Qed.
+
+  Lemma wp_sub_nn a b : b <= a -> wp (a_sub A a b) (fun r => 0 <= r).
+  Proof.
+    intros Hab. destruct (a_sub A a b) eqn:E; cbn [wp]; auto.
+    - exact (sa_sub_nn A HA a b _ Hab E).
+    - rewrite (sa_sub_p A HA _ _ _ E). apply pc_over.
   Qed.
 
   (* ---- constrained constructors ---- *)
@@ -213,13 +239,29 @@ Section Sign.
   Lemma wp_split_factor post pre : 0 < pre -> wp (split_factor A post pre) (fun f => 0 < f).
   Proof. intros Hp. unfold split_factor. apply wp_pos_div. apply Qclt_not_eq'. exact Hp. Qed.
 
-  Lemma wp_set_latest st af v :
-    Bool.eqb (af_reg af) (is_none (s_acb v)) = true ->
-    wp (set_latest A st af v) (fun _ => True).
+  (* the all-affiliate expression: panics only by overflow; not negative when
+     the affiliate's old balance is at most the total (what sanity_check_ptfs
+     verifies) *)
+  Lemma wp_all_after a o n : wp (all_after A a o n) (fun _ => True).
   Proof.
-    intros Hb. unfold set_latest. wstep wp_add. intros t _. wstep wp_sub. intros e _.
-    rewrite Hb. cbn [negb]. destruct (negb (Qceqb (s_all v) e)); cbn [wp]; [|exact I].
-    right; left; reflexivity.
+    unfold all_after. destruct (Qceqb n o); [exact I|].
+    wstep wp_sub. intros oth _. apply wp_add.
+  Qed.
+  Lemma wp_all_after_nn a o n : o <= a -> 0 <= a -> 0 <= n -> wp (all_after A a o n) (fun r => 0 <= r).
+  Proof.
+    intros Hoa Ha Hn. unfold all_after. destruct (Qceqb n o); [exact Ha|].
+    wstep (wp_sub_nn a o Hoa). intros oth Hoth. apply wp_add_nn; assumption.
+  Qed.
+
+  (* after a row of delta_for_tx the status tracker cannot panic: its
+     all-affiliate assertion compares two evaluations of one expression
+     (C05Assert), its other assertion is what the sanity check established *)
+  Lemma set_latest_no_panic bef t aft st d inj :
+    delta_for_tx A bef t aft st = Ok (d, inj) ->
+    Bool.eqb (af_reg (t_af t)) (is_none (s_acb (d_post d))) = true ->
+    exists st1, set_latest A st (t_af t) (d_post d) = Ok st1.
+  Proof.
+    intros Ed Hb. rewrite (set_latest_after_delta A _ _ _ _ _ _ Ed), Hb. cbn [negb]. eexists. reflexivity.
   Qed.
 
   Lemma wp_sell_core pre sh aps com rate crate :
@@ -228,7 +270,7 @@ Section Sign.
   Proof.
     intros Hpre Hsh Haps Hcom Hrate Hcrate. unfold sell_core.
     wstep wp_sub. intros nsh _. destruct (Qcltb_spec nsh 0) as [|Hn1]; [exact I|]. apply Qcnot_lt_le in Hn1.
-    wstep wp_sub. intros nall _. destruct (Qcltb nall 0); [exact I|].
+    wstep wp_all_after. intros nall _. destruct (Qcltb nall 0); [exact I|].
     wstep (wp_per_share pre Hpre). intros maps Hm. destruct maps as [acbps|]; [|exact I].
     specialize (Hm _ eq_refl).
     wstep (wp_gez_mul nsh acbps Hn1 Hm). intros nacb _.
@@ -239,17 +281,18 @@ Section Sign.
 
   (* all arms except Sell; [Hr]/[Hn] are what sanity_check established *)
   Lemma wp_nonsell t pre :
-    status_ok pre -> vtx t ->
+    status_ok pre -> vtx t -> s_sh pre <= s_all pre ->
     (af_reg (t_af t) = true -> s_acb pre = None) -> (af_reg (t_af t) = false -> s_acb pre <> None) ->
     wp (delta_nonsell A t pre) (fun _ => True).
   Proof.
-    intros (Hsh & Hall & Hacb) Hv Hr Hn. unfold delta_nonsell. unfold vtx, valid_tx in Hv.
+    intros (Hsh & Hall & Hacb) Hv Hle Hr Hn. unfold delta_nonsell. unfold vtx, valid_tx in Hv.
     destruct (t_act t) as [n price com rate crate | n price com rate crate sp | amount rate
                           | n amount | post pre_ io] eqn:Ea; cbn [valid_action] in Hv.
     - vsplit Hv. apply Qcltb_true in Hv. apply Qcleb_true in V2. apply Qcleb_true in V1.
       apply Qcltb_true in V0. apply Qcltb_true in V.
-      wstep (wp_gez_add (s_sh pre) n Hsh (Qclt_le_weak _ _ Hv)). intros nsh _.
-      wstep (wp_gez_add (s_all pre) n Hall (Qclt_le_weak _ _ Hv)). intros nall _.
+      wstep (wp_gez_add (s_sh pre) n Hsh (Qclt_le_weak _ _ Hv)). intros nsh Hnsh.
+      wstep (wp_all_after_nn (s_all pre) (s_sh pre) nsh Hle Hall Hnsh). intros r0 Hr0.
+      wstep (wp_gez_unwrap Site.buy_all r0 Hr0). intros nall _.
       destruct (s_acb pre) as [old|] eqn:Eo; [|exact I].
       wstep (wp_local_value n price rate (Qclt_le_weak _ _ Hv) V2 (Qclt_le_weak _ _ V0)). intros v Hv0.
       wstep (wp_gez_mul com crate V1 (Qclt_le_weak _ _ V)). intros c Hc.
@@ -275,7 +318,7 @@ Section Sign.
       wstep (wp_mul_nn (s_sh pre) post Hsh (Qclt_le_weak _ _ Hv)). intros m Hm.
       wstep (wp_div_nn m pre_ Hm V). intros qd Hqd.
       wstep (wp_gez_unwrap Site.split_balance qd Hqd). intros nsh _.
-      wstep wp_sub. intros diff _. wstep wp_add. intros nall _.
+      wstep wp_all_after. intros nall _.
       destruct (Qcltb nall 0); [exact I|]. destruct (_ && _); exact I.
   Qed.
 
@@ -505,6 +548,9 @@ Section Sign.
     destruct (sanity_check pre (t_af t)) as [[]| |] eqn:Es; cbn [bind]; [| exact I | ].
     2: { exfalso. unfold sanity_check in Es. destruct (Qcltb _ _); [discriminate|].
          destruct (_ && _); [discriminate|]. destruct (_ && _); discriminate. }
+    assert (Hle : s_sh pre <= s_all pre).
+    { unfold sanity_check in Es. destruct (Qcltb_spec (s_all pre) (s_sh pre)) as [|Hge]; [discriminate|].
+      apply Qcnot_lt_le. exact Hge. }
     apply sanity_ok in Es as [Hr Hn].
     destruct (t_act t) as [n price com rate crate | n price com rate crate sp | amount rate
                           | n amount | post pre_ io] eqn:Ea.
@@ -518,7 +564,7 @@ Section Sign.
            destruct m as [[info inj]|]; [|cbn [wp snd]; constructor].
            wstep wp_sub. intros g' _. cbn [wp snd]. eapply Hm; reflexivity.
          - destruct sp; cbn [wp snd]; [exact I | constructor]. }
-    all: wstep (wp_nonsell t pre Hpre Hv Hr Hn); intros d _; cbn [wp snd]; constructor.
+    all: wstep (wp_nonsell t pre Hpre Hv Hle Hr Hn); intros d _; cbn [wp snd]; constructor.
   Qed.
 
   (* ---- whole runs ---- *)
@@ -545,13 +591,10 @@ Section Sign.
       pose proof (wp_delta_for_tx bef t (inj ++ aft) st Hst Hv Hb Hia) as Hg.
       destruct (delta_for_tx A bef t (inj ++ aft) st) as [[d i]| r0 |q] eqn:Ed; cbn [wp] in Hg.
       + destruct (post_flag _ _ _ _ _ _ Ed Hst) as [Hflag Hpost].
-        pose proof (wp_set_latest st (t_af t) (d_post d) Hflag) as Hs.
-        destruct (set_latest A st (t_af t) (d_post d)) as [st1| r1 |q1] eqn:Es; cbn [wp] in Hs.
-        * destruct (run_injected A (t :: bef) st1 inj aft) as [[[ds1 b1] s1] o1] eqn:Er.
-          inversion H; subst; clear H.
-          eapply IH; [exact Er | eapply set_latest_ok; eauto | exact HV | constructor; assumption | exact Ha].
-        * inversion H; subst. split; [intros p E; discriminate E | auto].
-        * inversion H; subst. split; [intros p E; inversion E; subst; exact Hs | auto].
+        destruct (set_latest_no_panic _ _ _ _ _ _ Ed Hflag) as [st1 Es]. rewrite Es in H.
+        destruct (run_injected A (t :: bef) st1 inj aft) as [[[ds1 b1] s1] o1] eqn:Er.
+        inversion H; subst; clear H.
+        eapply IH; [exact Er | eapply set_latest_ok; eauto | exact HV | constructor; assumption | exact Ha].
       + inversion H; subst. split; [intros p E; discriminate E | auto].
       + inversion H; subst. split; [intros p E; inversion E; subst; exact Hg | auto].
   Qed.
@@ -565,42 +608,74 @@ Section Sign.
     pose proof (wp_delta_for_tx bef t aft st Hst Hv HVb HV) as Hg.
     destruct (delta_for_tx A bef t aft st) as [[d inj]| r0 |q] eqn:Ed; cbn [wp snd] in Hg.
     - destruct (post_flag _ _ _ _ _ _ Ed Hst) as [Hflag Hpost].
-      pose proof (wp_set_latest st (t_af t) (d_post d) Hflag) as Hs.
-      destruct (set_latest A st (t_af t) (d_post d)) as [st1| r1 |q1] eqn:Es; cbn [wp] in Hs.
-      + destruct (run_injected A (t :: bef) st1 inj aft) as [[[dsi b1] st2] o1] eqn:Er.
-        destruct (run_injected_pc inj _ _ _ _ _ _ _ Er (set_latest_ok A _ _ _ _ Es Hst Hpost) Hg
-                                  (Forall_cons _ Hv HVb) HV) as (Hp & Hvb1 & Hst2).
-        destruct o1 as [s1|].
-        * inversion H; subst. apply Hp. reflexivity.
-        * destruct (run_loop A b1 st2 aft) as [ds2 o2] eqn:El. inversion H; subst o2.
-          eapply IH; [exact El | exact Hst2 | exact HV | exact Hvb1].
-      + discriminate.
-      + inversion H; subst. exact Hs.
+      destruct (set_latest_no_panic _ _ _ _ _ _ Ed Hflag) as [st1 Es]. rewrite Es in H.
+      destruct (run_injected A (t :: bef) st1 inj aft) as [[[dsi b1] st2] o1] eqn:Er.
+      destruct (run_injected_pc inj _ _ _ _ _ _ _ Er (set_latest_ok A _ _ _ _ Es Hst Hpost) Hg
+                                (Forall_cons _ Hv HVb) HV) as (Hp & Hvb1 & Hst2).
+      destruct o1 as [s1|].
+      + inversion H; subst. apply Hp. reflexivity.
+      + destruct (run_loop A b1 st2 aft) as [ds2 o2] eqn:El. inversion H; subst o2.
+        eapply IH; [exact El | exact Hst2 | exact HV | exact Hvb1].
     - discriminate.
     - inversion H; subst. exact Hg.
   Qed.
 
-  Theorem run_panic_classes init txs ds p :
+  (* the opening position (--symbol-base) is the one status that does not come
+     from delta_for_tx: set_latest_post_status evaluates the expression on
+     (0, 0, opening balance), i.e. (0 - 0) + balance, and compares it with the
+     balance.  A rust_decimal value passes; [init_fits] says the opening
+     balance is a value of the arithmetic in that sense. *)
+  Definition init_fits (init : option status) : Prop :=
+    forall i, init = Some i -> all_after A 0 0 (s_sh i) = Ok (s_sh i).
+
+  Lemma init_state_pc init p :
+    init_state A init = Panic p -> init_ok2 init ->
+    pclass p \/ (p = PanicAssert Site.set_latest_all /\ ~ init_fits init).
+  Proof.
+    intros Ei Hi. unfold init_state in Ei. destruct init as [i|]; [|discriminate Ei].
+    destruct (Hi i eq_refl) as (Hs & Hacb & Hb).
+    destruct (Qceqb_spec (s_sh i) (s_all i)) as [_|Hn]; [|contradiction]. cbn [negb] in Ei.
+    unfold set_latest in Ei. cbn [latest_for ps_map alookup ps_all] in Ei.
+    pose proof (wp_all_after 0 0 (s_sh i)) as W.
+    destruct (all_after A 0 0 (s_sh i)) as [e| r0 |q] eqn:Ee; cbn [bind wp] in *.
+    - assert (Hflag : Bool.eqb (af_reg default_aff) (is_none (s_acb i)) = true).
+      { cbn [default_aff af_reg]. destruct (s_acb i); [reflexivity | contradiction Hacb; reflexivity]. }
+      rewrite Hflag in Ei. cbn [negb] in Ei.
+      destruct (Qceqb_spec (s_all i) e) as [E|N]; cbn [negb] in Ei; [discriminate Ei|].
+      inversion Ei; subst p. right. split; [reflexivity|].
+      intros Hf. specialize (Hf i eq_refl). rewrite Ee in Hf. inversion Hf. apply N. congruence.
+    - discriminate Ei.
+    - inversion Ei; subst q. left. exact W.
+  Qed.
+
+  (* every panic of a run is of a listed class - or it is the opening position
+     failing the status assertion before any row, which needs an opening
+     balance that is not a value of the arithmetic *)
+  Theorem run_panic_classes_any_init init txs ds p :
     run A init txs = (ds, Some (SPanic p)) ->
-    init_ok2 init -> Forall vtx txs -> pclass p.
+    init_ok2 init -> Forall vtx txs ->
+    pclass p \/ (p = PanicAssert Site.set_latest_all /\ ds = [] /\ ~ init_fits init).
   Proof.
     unfold run. destruct txs as [|t txs]; intros H Hi HV; [discriminate|].
     assert (Hs0 : st_ok {| ps_map := []; ps_all := 0; ps_latest := default_aff |})
       by (split; cbn; [constructor | apply Qcle_refl]).
     destruct (init_state A init) as [st| r0 |q] eqn:Ei.
-    - assert (Hst : st_ok st).
+    - left. assert (Hst : st_ok st).
       { unfold init_state in Ei. destruct init as [i|]; [|inversion Ei; subst; exact Hs0].
         destruct (negb _); [discriminate|]. destruct (Hi i eq_refl) as (Hs & _ & _).
         eapply set_latest_ok; [exact Ei | exact Hs0 | exact Hs]. }
       eapply (run_loop_pc (t :: txs) [] st ds p H Hst HV). constructor.
     - discriminate.
-    - inversion H; subst q. unfold init_state in Ei. destruct init as [i|]; [|discriminate].
-      destruct (Hi i eq_refl) as (Hs & Hacb & Hb).
-      destruct (Qceqb_spec (s_sh i) (s_all i)) as [_|Hn]; [|contradiction]. cbn [negb] in Ei.
-      assert (Hflag : Bool.eqb (af_reg default_aff) (is_none (s_acb i)) = true).
-      { cbn [default_aff af_reg]. destruct (s_acb i); [reflexivity | contradiction Hacb; reflexivity]. }
-      pose proof (wp_set_latest {| ps_map := []; ps_all := 0; ps_latest := default_aff |} default_aff i Hflag) as W.
-      rewrite Ei in W. exact W.
+    - inversion H; subst q ds. destruct (init_state_pc init p Ei Hi) as [Hp|[Hp Hn]]; [left; exact Hp|].
+      right. auto.
+  Qed.
+
+  Theorem run_panic_classes init txs ds p :
+    run A init txs = (ds, Some (SPanic p)) ->
+    init_ok2 init -> init_fits init -> Forall vtx txs -> pclass p.
+  Proof.
+    intros H Hi Hfit HV.
+    destruct (run_panic_classes_any_init init txs ds p H Hi HV) as [Hp|(_ & _ & Hn)]; [exact Hp | contradiction].
   Qed.
 End Sign.
 
@@ -620,4 +695,23 @@ Proof.
   unfold pos_unwrap. destruct (Qcltb_spec 0 r) as [|Hn]; [discriminate|]. intros H; inversion H; subst. right.
   split; [reflexivity|]. f_equal. apply Qcnot_lt_le in Hn.
   apply Qcle_antisym; [exact Hn|]. apply (proj1 (fit_sign _ _ E)). apply Qclt_le_weak. apply Qcmul_pos; assumption.
+Qed.
+
+(* ---- the opening position is a value of the arithmetic ---- *)
+Lemma init_fits_none A : init_fits A None.
+Proof. intros i E; discriminate E. Qed.
+Lemma init_fits_exact init : init_fits exact init.
+Proof. intros i _. rewrite all_after_exact. f_equal. ring. Qed.
+(* rust_decimal: an opening balance that is a decimal of at most 28 places
+   with a 96-bit mantissa (fit returns it unchanged) passes *)
+Lemma init_fits_dec init :
+  (forall i, init = Some i -> fit (s_sh i) = Some (s_sh i)) -> init_fits dec init.
+Proof.
+  intros H i E. specialize (H i E). unfold all_after.
+  destruct (Qceqb_spec (s_sh i) 0) as [E0|_]; [rewrite E0; reflexivity|].
+  cbn [a_sub a_add dec].
+  assert (E1 : (0 - 0 : Qc) = 0) by ring. rewrite E1.
+  assert (E2 : fit 0 = Some 0) by (apply (fit_exact_int 0); vm_compute; discriminate).
+  unfold fit_res at 1. rewrite E2. cbn [bind].
+  assert (E3 : 0 + s_sh i = s_sh i) by ring. rewrite E3. unfold fit_res. rewrite H. reflexivity.
 Qed.
